@@ -61,6 +61,16 @@ func errs(e error) any {
 	return e.Error()
 }
 
+// readLimits reads the limit files of the group from the kernel
+func readLimits(pre string, o map[string]any) {
+	rd := func(p string) string { b, _ := os.ReadFile(p); return strings.TrimSpace(string(b)) }
+	o["mem"] = rd(filepath.Join("/sys/fs/cgroup/memory", pre, "memory.limit_in_bytes"))
+	o["pids"] = rd(filepath.Join("/sys/fs/cgroup/pids", pre, "pids.max"))
+	o["quota"] = rd(filepath.Join("/sys/fs/cgroup/cpu", pre, "cpu.cfs_quota_us"))
+	o["period"] = rd(filepath.Join("/sys/fs/cgroup/cpu", pre, "cpu.cfs_period_us"))
+	o["cpuset"] = rd(filepath.Join("/sys/fs/cgroup/cpuset", pre, "cpuset.cpus"))
+}
+
 func main() {
 	hx.Init()
 	all := &cgroup.Controllers{CPU: true, CPUSet: true, CPUAcct: true, Memory: true, Pids: true}
@@ -240,12 +250,12 @@ func main() {
 				o["mem_err"] = errs(h.SetMemoryLimit(uint64(hx.Int(op["mem"]))))
 				o["pids_err"] = errs(h.SetProcLimit(uint64(hx.Int(op["pids"]))))
 				o["cpu_err"] = errs(h.SetCPUBandwidth(uint64(hx.Int(op["quota"])), uint64(hx.Int(op["period"]))))
-				pre := op["prefix"].(string)
-				rd := func(p string) string { b, _ := os.ReadFile(p); return strings.TrimSpace(string(b)) }
-				o["mem"] = rd(filepath.Join("/sys/fs/cgroup/memory", pre, "memory.limit_in_bytes"))
-				o["pids"] = rd(filepath.Join("/sys/fs/cgroup/pids", pre, "pids.max"))
-				o["quota"] = rd(filepath.Join("/sys/fs/cgroup/cpu", pre, "cpu.cfs_quota_us"))
-				o["period"] = rd(filepath.Join("/sys/fs/cgroup/cpu", pre, "cpu.cfs_period_us"))
+				if cs, ok := op["cpuset"].(string); ok {
+					o["cpuset_err"] = errs(h.SetCPUSet([]byte(cs)))
+				}
+				readLimits(op["prefix"].(string), o)
+			case "readlimits":
+				readLimits(op["prefix"].(string), o)
 			case "burn":
 				// a child in the group burns CPU and touches memory, then usage is read
 				h := hnd(op["h"])
